@@ -24,18 +24,23 @@ struct CB { // RAII holder for a `basic`
 };
 // operand through the C constructors: 0 integer (symbolic long), 1 rational i/j with symbolic i, j (j may be 0: zoo / nan like
 // Rational::from_two_ints), 2 symbol, 3 1.5
-static bool c_operand(CB &o, int kind, const std::string &tag, RCP<const Basic> &cpp)
+static long slot(const std::string &name, long lo, long hi, bool enumerate)
+{
+    // symbolic, or one path per value (for functions whose evaluation looks the argument up in hash tables)
+    return enumerate ? lo + (long)verif_choice(name.c_str(), hi - lo + 1) : verif_i64(name.c_str(), lo, hi);
+}
+static bool c_operand(CB &o, int kind, const std::string &tag, RCP<const Basic> &cpp, bool enumerate = false)
 {
     CWRAPPER_OUTPUT_TYPE rc = SYMENGINE_NO_EXCEPTION;
     switch (kind) {
         case 0: {
-            long v = verif_i64((tag + "_i").c_str(), -4, 4);
+            long v = slot(tag + "_i", enumerate ? -2 : -4, enumerate ? 2 : 4, enumerate);
             CCALL(rc = integer_set_si(o.b, v));
             cpp = integer(v);
             break;
         }
         case 1: {
-            long i = verif_i64((tag + "_n").c_str(), -4, 4), j = verif_i64((tag + "_d").c_str(), -2, 3);
+            long i = slot(tag + "_n", enumerate ? -1 : -4, enumerate ? 2 : 4, enumerate), j = slot(tag + "_d", enumerate ? 0 : -2, enumerate ? 2 : 3, enumerate);
             CCALL(rc = rational_set_si(o.b, i, j));
             cpp = Rational::from_two_ints(i, j);
             break;
@@ -81,12 +86,14 @@ extern "C" void harness_c42_binary()
 {
     CB a, b, r;
     RCP<const Basic> ca, cb;
-    if (!c_operand(a, (int)verif_choice("ka", 4), "a", ca) || !c_operand(b, (int)verif_choice("kb", 4), "b", cb)) {
+    unsigned op = (unsigned)verif_choice("op", 8);
+    bool en = op == 5 || op == 6; // atan2 / beta: table lookups keyed by the argument's hash
+    if (!c_operand(a, (int)verif_choice("ka", 4), "a", ca, en) || !c_operand(b, (int)verif_choice("kb", 4), "b", cb, en)) {
         VERIF_END();
         return;
     }
     CWRAPPER_OUTPUT_TYPE rc = SYMENGINE_NO_EXCEPTION;
-    switch (verif_choice("op", 8)) {
+    switch (op) {
         case 0: CCALL(rc = basic_add(r.b, a.b, b.b)); agree(rc, r, [&] { return add(ca, cb); }, "basic_add agrees with add()"); break;
         case 1: CCALL(rc = basic_sub(r.b, a.b, b.b)); agree(rc, r, [&] { return sub(ca, cb); }, "basic_sub agrees with sub()"); break;
         case 2: CCALL(rc = basic_mul(r.b, a.b, b.b)); agree(rc, r, [&] { return mul(ca, cb); }, "basic_mul agrees with mul()"); break;
